@@ -60,6 +60,6 @@ def blocked (s : Sh) : PC → Bool
 
 def init : Sh := { heap := [], length := 0, locked := false }
 
-def algo (lt : Nat → Nat → Bool) : Algo := { Sh, PC, start, label, exec := exec lt, blocked }
+@[reducible] def algo (lt : Nat → Nat → Bool) : Algo := { Sh, PC, start, label, exec := exec lt, blocked }
 
 end GoaktVerif.Model.C04.Locked
